@@ -366,4 +366,10 @@ def rule_problem_rename(ctx):
     ctx.add("NS", "problem-rename:one-clash-set", ok, ctx.site(b), "Problem::rename_conflicting_symbols: " + why, construct=v)
 
 
-RULES = [rule_declarations, rule_namespaces, rule_names, rule_one_conjecture, rule_pre1, rule_binding, rule_problem_rename, rule_shared_typing_and_closure]
+def rule_identity(ctx):
+    """items kept in sets are the same element exactly when all their fields agree: see collect.check_structural_identity"""
+    from .. import collect as _collect
+    _collect.check_structural_identity(ctx, "IDENT", ctx.facts)
+
+
+RULES = [rule_declarations, rule_namespaces, rule_names, rule_one_conjecture, rule_pre1, rule_binding, rule_problem_rename, rule_shared_typing_and_closure, rule_identity]
